@@ -331,6 +331,17 @@ impl Prop for C07 {
     }
     fn run_case(&self, case: u64, rng: &mut Rng, st: &mut Stats, tier: Tier) {
         install_decision_hook();
+        if case % 12 == 7 {
+            // register pressure with per-tile decidable choices (see C06)
+            let p = crate::props::c06::pressure_scene(rng, true);
+            st.inc("scenes_register_pressure_with_choices");
+            st.distinct(p.hash());
+            let seed = rng.next_u64();
+            if let Some((sig, msg, detail)) = check_prog_(&p, seed, tier, st, false) {
+                st.violation(case, sig, msg, json!({"detail": detail, "shape": p.to_json(), "check_seed": seed.to_string()}));
+            }
+            return;
+        }
         if rng.chance(0.25) {
             // random expression, possibly undefined (NaN) on part of the
             // grid: sqrt/ln of negatives, division by intervals through zero
